@@ -157,9 +157,9 @@ var c02Families = []c02Family{
 }
 
 func c02Run(x *core.Ctx) {
-	ns := 60
+	ns := 150
 	if !x.Quick() {
-		ns = 1500
+		ns = 4000
 	}
 	r := x.Rand(uint64(x.Shard))
 	rn := &model.Renderer{}
